@@ -271,9 +271,9 @@ fn sorted_pairs(mut v: Vec<(Entity, String)>) -> String {
     format!("[{}]", s.join(";"))
 }
 
-pub const PATHS: [&str; 13] = [
+pub const PATHS: [&str; 14] = [
     "iter", "mut", "prepared", "prepared_mut", "view", "view_mut", "prepared_view", "batched", "one", "one_mut", "sat",
-    "eref", "many",
+    "eref", "many", "mut_batched",
 ];
 
 fn run<Q>(world: &mut World, path: &str, h: Entity, hs: &[Entity], n: u32, store: &mut HashMap<usize, Box<dyn Any>>, k: usize) -> String
@@ -357,6 +357,14 @@ where
             let mut qb = world.query::<Q>();
             let bs: Vec<String> = qb
                 .iter_batched(n)
+                .map(|b| sorted_pairs(b.map(|(e, i)| (e, i.canon())).collect()))
+                .collect();
+            format!("batches=[{}]", bs.join(";"))
+        }
+        "mut_batched" => {
+            let bs: Vec<String> = world
+                .query_mut::<Q>()
+                .into_iter_batched(n)
                 .map(|b| sorted_pairs(b.map(|(e, i)| (e, i.canon())).collect()))
                 .collect();
             format!("batches=[{}]", bs.join(";"))
